@@ -20,6 +20,13 @@ def crate_stats(chk, *crates):
     for c in crates:
         if c is not None:
             chk.analysed[c.name] = c.stats()
+            for line in getattr(c, "canon_log", []) or []:
+                note = f"canonical names ({c.name}): {line}"
+                if note not in chk.notes:
+                    chk.notes.append(note)
+            removed = sorted(getattr(c, "removed", []) or [])
+            if removed:
+                chk.analysed[c.name]["helpers_spliced_into_callers"] = len(removed)
 
 
 def need(chk, rule, what, found):
